@@ -23,7 +23,7 @@ func init() {
 		Rule:           "inputs: (i) every valid JSON text among ALL strings <= 5 (thorough 6) symbols over the 30-class alphabet; (ii) ALL JSON values with <= 4 (5) nodes over 10 scalar forms rendered with every placement of <= 2 (3) gaps from {space, tab, LF, CRLF} over all inter-token positions; (iii) all 2^8 object/array nestings of depth 8, flat containers of width 1..8, containers of n copies of each of 12 units (empty and one-item containers, scalars) for n in 1..10 and around every power of two up to 256, 300, 1000, numbers ending at end of input, every single-character escape and every \\uXXXX escape with each hex digit from {0,9,a,F} in strings and keys. Oracle on the public NextLexeme stream (of a fresh document, and of a document on which Len or Check ran before): properly nested, terminated by io.EOF, spans inside the input, literal/key spans == reference token spans, container spans bracket to bracket, value rebuilt from events alone == reference parse; cross-scanner: schema scanner and (arrays of scalars) enum scanner via verif hooks yield the same (type, begin, end) sequence modulo new-line events. (iv) pairs of small documents read in turns through NextLexeme: in ALL merges of the two call sequences each document delivers the events it delivers alone. States/transitions = distinct (event-type stack) configurations of the replayed event automaton and steps between them. Non-trivial = distinct valid text with >= 2 events.",
 		Run:            run,
 		Replay:         replay,
-		QuickBudget:    80 * time.Second,
+		QuickBudget:    150 * time.Second,
 		ThoroughBudget: 12 * time.Minute,
 		Assumptions: []string{
 			"numerals with exponents are excluded from the cross-scanner relation (the schema language forbids them)",
@@ -364,6 +364,17 @@ func run(c *ev.Ctx) {
 	c.Bound("string_symbols", L)
 	c.Bound("value_nodes", maxNodes)
 	c.Bound("gaps", maxGaps)
+	// the directed families first: they are cheap, and a deadline (thorough tier) must cut the tail of
+	// the big enumerations, not them
+	if c.Shard == 0 {
+		families(c)
+		utf8Family(c)
+	}
+	repetitions(c)
+	// two documents read in turns: every merge of the two call sequences
+	streamx.Run(c)
+	// (ii) values x gaps
+	values(c, maxNodes, maxGaps)
 	// (i) all strings <= L that are live for the reference
 	var rec func(w string, p *jsonpda.PDA, n int)
 	rec = func(w string, p *jsonpda.PDA, n int) {
@@ -388,16 +399,6 @@ func run(c *ev.Ctx) {
 		}
 	}
 	rec("", jsonpda.New(), 0)
-	// (ii) values x gaps
-	values(c, maxNodes, maxGaps)
-	// (iii) families
-	if c.Shard == 0 {
-		families(c)
-		utf8Family(c)
-	}
-	repetitions(c)
-	// two documents read in turns: every merge of the two call sequences
-	streamx.Run(c)
 }
 
 var scalarForms = []string{"0", "-1.5", "1e2", `"a"`, `"é"`, `"\n\"\\"`, `""`, "true", "false", "null"}
